@@ -126,6 +126,32 @@ def check_validate(ctx):
             continue
         R.dom(ctx, inst, body, v, targets, "input validation dominates everything that can publish", a_desc="validate_*")
         R.guard(ctx, inst, body, targets, R.guard_edges_for_call(body, v[:1], "Ok"), "publication only on the Ok edge of validation")
+    # what is validated is what is published: the value handed to validate_key_value has the provenance of the value handed to the
+    # publishing step of the same function (a computed value - the patched document, the CAS replacement - must be the one checked;
+    # checking the value that is already stored lets an oversized result through, and a persistent store then refuses to reopen)
+    vinst = inst + "/value"
+    PUBLISHERS = (("FeoxStore::replace_record_if_current", 3), ("FeoxStore::update_record_with_ttl", 2), ("FeoxStore::update_record_with_ttl_bytes", 2),
+                  ("Record::new", 1), ("Record::new_with_timestamp_ttl", 1), ("Record::new_from_bytes", 1), ("Record::new_from_bytes_with_ttl", 1))
+
+    def vorig(b, e):
+        return {o for o in A.origins(b, e) if o[0] in ("arg", "local", "call")}
+    n_val = 0
+    for b in ctx.prog.product_bodies():
+        if "core::store" not in b.path:
+            continue
+        vs = [n for n in b.calls() if R.call_matches(n.ev, "FeoxStore::validate_key_value") and len(n.ev["args"]) >= 3]
+        if not vs:
+            continue
+        pubs = [(n, i) for n in b.calls() for (nm, i) in PUBLISHERS if R.call_matches(n.ev, nm) and len(n.ev["args"]) > i]
+        if not pubs:
+            continue
+        vo = {R.arg_expr(b, v_, 2).key() for v_ in vs}
+        for (n, i) in pubs:
+            n_val += 1
+            po = {R.arg_expr(b, n, i).key()}
+            ctx.check(bool(po & vo), vinst, "PROVENANCE", R.owner_fn(ctx.prog, b), "the value validated is the value that is published", b.where(n.id),
+                      {"published": R.arg_expr(b, n, i).show()[:80], "validated": [R.arg_expr(b, v_, 2).show()[:60] for v_ in vs]})
+    ctx.check(n_val >= 5, vinst, "anchor", "-", "publishing calls next to a validate_key_value (>= 5, found %d)" % n_val, None)
     # helpers are called only from validated entry points (or from each other)
     helpers = {
         "FeoxStore::update_record_with_ttl": ["FeoxStore::insert_with_timestamp_and_ttl_internal"],
